@@ -378,3 +378,40 @@ def hash_eq_agree(F, rep, rule="C13.hash-eq"):
                else "hash reads %s; eq compares %s" % (sorted(x[1] for x in hs), sorted(x[1] for x in es)), hf.span, fn=hf.path,
                key="%s|%s" % (rule, mir.short(ty)))
     rep.floor(rule + " types with both Hash and PartialEq", n, 6)
+    # stability: the hash of a filed key must not change while it sits in the table.  A hash() that reads through a GcCell hashes state that
+    # every alias of the value can still change.
+    m = 0
+    for ty in sorted(H):
+        hf = F.fn(H[ty][0]) if H[ty] else None
+        if hf is None:
+            continue
+        m += 1
+        borrows = [c_ for c_ in hf.calls() if c_.matches(("gc::GcCell<T>::borrow", "gc::GcCell::<T>::borrow", "gc::GcCell<T>::borrow_mut", "gc::GcCell::<T>::borrow_mut"))]
+        # only a borrow whose *contents* are fed to Hash::hash counts; `&*cell.borrow() as *const _ as usize` hashes the address (identity)
+        guards = {c_.dst["l"] for c_ in borrows}
+        cells = []
+        for hc in hf.calls():
+            if not hc.callee().endswith("::hash") or not hc.args:
+                continue
+            seen, work = set(), [op_local(hc.args[0])]
+            while work:
+                l = work.pop()
+                if l is None or l in seen:
+                    continue
+                seen.add(l)
+                if l in guards:
+                    cells.append([b for b in borrows if b.dst["l"] == l][0])
+                    break
+                for d in rules.defs_of(hf, l):
+                    if d[0] == "assign":
+                        rv = d[4]
+                        pl = mir.op_place(rv["use"]) if "use" in rv else rv.get("ref")     # casts are not followed: an address is not the contents
+                        if pl:
+                            work.append(pl["l"])
+                    elif d[4].matches(("core::ops::deref::Deref::deref",)) and d[4].args:
+                        work.append(op_local(d[4].args[0]))
+        rep.ob(rule, "%s: hash() does not read state that an alias of the key can change" % mir.short(ty), "violated" if cells else "ok",
+               ("hash() borrows a GcCell at %s: the contents are shared with every alias of the value, so `m[k] = v` followed by a mutation of `k` "
+                "leaves the entry filed under a stale hash" % cells[0].span) if cells else "", hf.span, fn=hf.path,
+               key="%s|stable|%s" % (rule, mir.short(ty)))
+    rep.floor(rule + " Hash bodies examined", m, 7)
